@@ -19,7 +19,7 @@ ASSUMPTIONS = [
     "total number of accepted windows >= 2 (the 1 - sum(w^2) normalisation is otherwise 0/0)",
     "comparison rtol 1e-10 against the explicit weighted formulas; reductions rtol 1e-12",
 ]
-BUDGET = {"quick": 1600, "thorough": 40000}
+BUDGET = {"quick": 1000, "thorough": 40000}
 SHARDS = {"quick": 8, "thorough": 16}
 TECHNIQUE = "model-based property testing: explicit Cheng et al. weights in numpy, reductions (single azimuth, equal counts), permutation and garbage-twin relations over mask histories"
 
